@@ -206,6 +206,17 @@ def parse_impl_upgrade_targets(sd, rows, target):
         return None
 
 
+def names_a_branch(target):
+    """does this downgrade target restrict the downgrade to one branch?"""
+    if not isinstance(target, str):
+        return False
+    mm = REL_RE.match(target)
+    if mm:
+        label, sym, rel = mm.groups()
+        return bool(label) or (sym is None and int(rel) < 0)
+    return "@" in target
+
+
 def parse_impl_downgrade_target(sd, rows, target):
     try:
         import warnings
@@ -362,6 +373,11 @@ def judge(ctx, focus, collected, sds):
                 spec_meta.append(("relup", inp, impl, (it[0], int(mm.group(3)))))
         elif focus.prop == "C02":
             pt = parse_impl_downgrade_target(sd, c["rows"], c["target"])
+            if pt is not None and not names_a_branch(c["target"]):
+                # only `label@…` and the bare `-N` form (relative to the first current row) restrict
+                # the downgrade to one branch; for every other spelling the oracle judges the plan
+                # against ALL down-revision children of the target, whatever the implementation chose
+                pt = dict(pt, branch=None)
             if pt is not None and ("steps" in impl or impl.get("err") == "rangeNotAncestor"):
                 if "steps" in impl:
                     plan = [s["rev"] for s in impl["steps"]]
